@@ -734,12 +734,12 @@ def step (cx : Ctx) (p : Program) (s : St) : StepR :=
     | .bz l => match s.ms.stack with
       | .u 0 :: r => jump p l { s1 with ms := { s.ms with stack := r } }
       | .u _ :: r => .next { s1 with ms := { s.ms with stack := r } }
-      | .b _ :: _ => .halt (.fail (.typeErr "bz on bytes"))
+      | .b _ :: _ => .halt (.fail (.typeErr "branch on bytes"))
       | [] => .halt (.fail .underflow)
     | .bnz l => match s.ms.stack with
       | .u 0 :: r => .next { s1 with ms := { s.ms with stack := r } }
       | .u _ :: r => jump p l { s1 with ms := { s.ms with stack := r } }
-      | .b _ :: _ => .halt (.fail (.typeErr "bnz on bytes"))
+      | .b _ :: _ => .halt (.fail (.typeErr "branch on bytes"))
       | [] => .halt (.fail .underflow)
     | .callsub l =>
       jump p l { s1 with calls := { retPc := s.pc + 1, height := s.ms.stack.length } :: s.calls }
